@@ -645,6 +645,10 @@ class Output(object):
         if not isinstance(network, Network):
             self.network = Network(network)
         self.value = value_to_satoshi(value, network=network)
+        if not isinstance(self.value, int):
+            if not float(self.value).is_integer():
+                raise TransactionError("Output must be of type integer and contain no decimals")
+            self.value = int(self.value)
         self.lock_script = b'' if lock_script is None else to_bytes_binary(lock_script)
         self.public_hash = to_bytes_binary(public_hash)
         if isinstance(address, Address):
